@@ -46,6 +46,9 @@ class NaiveRegionSorter:
     def process_page(self, image, page_layout: PageLayout):
         regions = []
 
+        if len(page_layout.regions) < 2:
+            return page_layout
+
         for region in page_layout.regions:
             regions.append(Region(region))
 
